@@ -40,7 +40,7 @@ const (
 
 // Marshal encodes the SliceLossIndication in binary
 func (p SliceLossIndication) Marshal() ([]byte, error) {
-	if len(p.SLI)+sliLength > math.MaxUint8 {
+	if len(p.SLI)+sliLength > math.MaxUint16 {
 		return nil, errTooManyReports
 	}
 
